@@ -133,7 +133,9 @@ seeded-f-difftodisk-keeps-destructed-slots-in-cache       | no tests (kai/state/
   a destructed contract's slots stay in the disk layer's  |                          |  sig)   |
   clean cache; a CREATE2 re-creation at the same address  |                          |         |
   on a long-running snapshot node reads the dead          |                          |         |
-  incarnation's slot                                      |                          |         |
+  incarnation's slot                                      |                          |         | (since the two-transaction block letters exist also:
+                                                          |                          |         |  C06|block=killA,payA@legacy+factory-deployed|axis=snapshot+
+                                                          |                          |         |  flatten-every-block|field=state-read-back)
 
 The second seeded change (C06f) was MISSED by the version with the chains above (quick exit 0). What excluded it:
 (1) diffToDisk never ran: no snapshot diff layer was ever merged into the disk layer (that needs > 128 layers plus the
@@ -148,6 +150,27 @@ long-running snapshot node merges all diff layers into the disk layer through th
 before the last block. So the compared node kinds are {snapshots off, snapshots on long-running, snapshots on
 flattened every block (pruning and archive), flattened + restarted before the last block}. Guards: some chain must
 re-create the contract after a self-destruct, and Cap(root, 0) must have succeeded.
+
+seeded-g-difflayer-destruct-checked-before-account-data   | no tests (kai/state/     | exit 1  | C06|block=killA,payA@legacy+factory-deployed|axis=snapshot|
+  (independently written; /verif/seeded/C06g):            |  snapshot)               | (3 of 3 |  field=state-read-back,
+  kai/state/snapshot/difflayer.go accountRLP: the         |                          |  runs,  | C06|block=killA,payA/mk2B@legacy+factory-deployed|
+  destructSet is consulted BEFORE accountData => an       |                          |  same   |  axis=snapshot|field=app-hash
+  account destructed and re-created within ONE block      |                          |  sigs)  |
+  reads as deleted in the following blocks on snapshot    |                          |         |
+  nodes                                                   |                          |         |
+
+The third seeded change (C06g) was MISSED by the version above (quick exit 0). What excluded it: no block destructed
+the contract and re-funded / re-created the SAME address within one block and was FOLLOWED by another block: the
+single-block cases have no following block (and no template sends value to the contract's address or re-creates it),
+the chains held <= 1 transaction per block. Added: chain-only templates payA (plain value transfer to the contract's
+address) and fwdA (pays it through a FORWARDER contract in the +factory genesis allocation: CALL with value - charges
+CallNewAccountGas when the callee does not exist - then slot1 = BALANCE, slot2 = EXTCODESIZE of it); the +factory
+chains are now enumerated over BLOCK letters {(empty), setB, clrA, killA, mk2B, payA, fwdA, "killA,payA",
+"killA,mk2B"} where the last two are blocks of two transactions (destruct, then re-fund / CREATE2 re-create in the
+same block), every 2-block sequence, under the same node kinds {snapshots off, on long-running, flattened every
+block, flattened + restarted before the last block} (thorough: 30 variants incl. all 16 configurations; the earlier
+3-block family is kept). Guard: some chain must destruct and re-create in one block (both receipts successful, the
+address exists afterwards) and pay the address in a later block.
 
 M20 (commitBlock does not RevertToSnapshot after a failing transaction: `_ = snap` instead of
 `state.RevertToSnapshot(snap)`): tried, quick exits 0, and that is correct for THIS property. Every node —
